@@ -22,6 +22,9 @@ TRUSTED_BASE = [
 ]
 
 
+EXIT_PROBLEMS = []
+
+
 class Violation(Exception):
     pass
 
@@ -155,6 +158,12 @@ def run_parallel(cmd, lines, env=None, what='tool', chunk_timeout=600):
                 got = (so.decode() if isinstance(so, bytes) else so).splitlines()
                 class R: pass
                 r = R(); r.returncode = -9; r.stderr = 'TIMEOUT after %ds' % chunk_timeout
+            if len(got) == len(part) - i and r.returncode != 0:
+                # every case answered but the process ended badly (leak report, error at exit)
+                EXIT_PROBLEMS.append(' | '.join(l.strip() for l in r.stderr.splitlines()
+                                                 if 'ERROR' in l or 'SUMMARY' in l or 'leak' in l)[:800] or ('rc=%d' % r.returncode))
+                out += got
+                break
             if r.returncode == 0 and len(got) == len(part) - i:
                 out += got
                 break
